@@ -101,6 +101,10 @@ pub fn replace_global_security_splits_for(
             non_global_affiliates.push(af.clone());
         }
     }
+    // The affiliates come out of a HashSet. Sort them, so that the order of the
+    // generated per-affiliate splits (and so the output) does not vary from run
+    // to run.
+    non_global_affiliates.sort_by(|a, b| a.id().cmp(b.id()));
 
     // Ensure we have at least the default affiliate. This would be a weird case
     // where the only Txs are splits, but we'll handle it anyway.
